@@ -405,8 +405,10 @@ class MinErrorFlow():
                 # edge_subset = edge_subset[:30]        
 
                 # Getting all the different 'flow_attr' values in the corrected graph
+                # (taken from the internal edge values: for node-weighted input `corrected_graph` is the condensed
+                # graph, which does not contain the edges of the node-expanded internal graph)
                 ub_different_flow_values = len(set(
-                    corrected_graph[u][v].get(self.flow_attr, 0)
+                    self.edge_sol.get((u, v), 0)
                     for (u, v) in edge_subset
                 ))
 
